@@ -423,15 +423,15 @@ Proof.
   f_equal. apply IH; lia.
 Qed.
 
-Theorem contrib_is_edge_sum : forall tsize ssize m sval a u, aligned_m m ->
-  contrib tsize ssize m sval = Some a ->
+Theorem contrib_is_edge_sum : forall f32 tsize ssize m sval a u, aligned_m m ->
+  contrib f32 tsize ssize m sval = Some a ->
   lookup a u = if mem u (mt m) then Some (tsum (mtriples m) sval u) else None.
 Proof.
-  intros tsize ssize m sval a u [A B] H. unfold contrib in H.
+  intros f32 tsize ssize m sval a u [A B] H. unfold contrib in H.
   assert (T : targets (mtriples m) = mt m) by (apply zip3_targets; assumption).
   destruct (dot_edge tsize ssize (mt m)) eqn:D.
   - inversion H; subst. rewrite dot_is_edge_sum. fold (mtriples m). rewrite T. reflexivity.
-  - destruct ((ssize =? 1) && (1 <? length (mt m))); [discriminate|]. inversion H; subst.
+  - destruct (negb f32 && (ssize =? 1) && (1 <? length (mt m))); [discriminate|]. inversion H; subst.
     unfold dot_edge in D. apply orb_false_iff in D as [D _]. apply negb_false_iff in D.
     fold (mtriples m). rewrite idx_is_edge_sum; rewrite T; [reflexivity|]. apply nodupb_NoDup. exact D.
 Qed.
@@ -456,29 +456,29 @@ Proof.
   destruct (all_some l) as [r'|]; [|discriminate]. inversion H. eauto.
 Qed.
 
-Lemma zero_buffer_sum : forall tsize ssize sval ml cs u, Forall aligned_m ml ->
-  all_some (map (fun m => contrib tsize (ssize m) m (sval m)) ml) = Some cs ->
+Lemma zero_buffer_sum : forall f32 tsize ssize sval ml cs u, Forall aligned_m ml ->
+  all_some (map (fun m => contrib f32 tsize (ssize m) m (sval m)) ml) = Some cs ->
   buffers_sum cs u = msum ml sval u.
 Proof.
   unfold buffers_sum. induction ml as [|m ml IH]; intros cs u HA H.
   - cbn in H. inversion H. reflexivity.
   - cbn [map] in H. apply all_some_cons in H as (a & r' & H1 & H2 & ->).
     inversion HA as [|? ? Hm Hml]; subst. cbn [map qsum msum].
-    rewrite (contrib_is_edge_sum _ _ _ _ _ u Hm H1). rewrite (IH _ _ Hml H2). f_equal.
+    rewrite (contrib_is_edge_sum _ _ _ _ _ _ u Hm H1). rewrite (IH _ _ Hml H2). f_equal.
     destruct (mem u (mt m)) eqn:E; [reflexivity|].
     symmetry. apply tsum_notin. unfold mtriples. rewrite zip3_targets by apply Hm. apply mem_false. exact E.
 Qed.
 
 (* the units covered by some target_idx list are the units some merged edge list reaches *)
-Lemma assigned_hits : forall tsize ssize sval ml cs u, Forall aligned_m ml ->
-  all_some (map (fun m => contrib tsize (ssize m) m (sval m)) ml) = Some cs ->
+Lemma assigned_hits : forall f32 tsize ssize sval ml cs u, Forall aligned_m ml ->
+  all_some (map (fun m => contrib f32 tsize (ssize m) m (sval m)) ml) = Some cs ->
   existsb (assigned u) cs = existsb (hits u) ml.
 Proof.
   induction ml as [|m ml IH]; intros cs u HA H.
   - cbn in H. inversion H. reflexivity.
   - cbn [map] in H. apply all_some_cons in H as (a & r' & H1 & H2 & ->).
     inversion HA as [|? ? Hm Hml]; subst. cbn [existsb]. rewrite (IH _ _ Hml H2). f_equal.
-    unfold assigned, hits. rewrite (contrib_is_edge_sum _ _ _ _ _ u Hm H1). destruct (mem u (mt m)); reflexivity.
+    unfold assigned, hits. rewrite (contrib_is_edge_sum _ _ _ _ _ _ u Hm H1). destruct (mem u (mt m)); reflexivity.
 Qed.
 
 Lemma msum_nohit : forall ml sval u, Forall aligned_m ml -> existsb (hits u) ml = false -> msum ml sval u = 0.
@@ -489,8 +489,8 @@ Proof.
   unfold mtriples. rewrite zip3_targets by apply Hm. apply mem_false. exact H1.
 Qed.
 
-Lemma two_or_more : forall tsize ssize sval (m1 m2 : mrg) ml cs,
-  all_some (map (fun m => contrib tsize (ssize m) m (sval m)) (m1 :: m2 :: ml)) = Some cs ->
+Lemma two_or_more : forall f32 tsize ssize sval (m1 m2 : mrg) ml cs,
+  all_some (map (fun m => contrib f32 tsize (ssize m) m (sval m)) (m1 :: m2 :: ml)) = Some cs ->
   exists a b cs', cs = a :: b :: cs'.
 Proof.
   intros. cbn [map] in H. apply all_some_cons in H as (a & r' & _ & H2 & ->).
@@ -500,19 +500,19 @@ Qed.
 (* Input of target unit u of a vector node, from the merged per-source lists `ml` (code as it is now, D57 included):
    if some edge reaches u: the sum over ALL merged edge lists of w * source value (dot/indexed choice, `+` of buffers);
    otherwise the declared default — for any number of source vector nodes, no guard. *)
-Theorem input_is_edge_sum : forall tsize ssize sval ml cs rdef u, Forall aligned_m ml ->
-  all_some (map (fun m => contrib tsize (ssize m) m (sval m)) ml) = Some cs ->
+Theorem input_is_edge_sum : forall f32 tsize ssize sval ml cs rdef u, Forall aligned_m ml ->
+  all_some (map (fun m => contrib f32 tsize (ssize m) m (sval m)) ml) = Some cs ->
   input_of cs rdef u = if existsb (hits u) ml then msum ml sval u else rdef.
 Proof.
-  intros tsize ssize sval ml cs rdef u HA H.
+  intros f32 tsize ssize sval ml cs rdef u HA H.
   destruct ml as [|m1 [|m2 ml]].
   - cbn in H. inversion H. reflexivity.
   - cbn [map] in H. apply all_some_cons in H as (a & r' & H1 & H2 & ->). cbn in H2. inversion H2; subst.
     inversion HA as [|? ? Hm _]; subst. cbn [input_of existsb msum hits].
-    rewrite (contrib_is_edge_sum _ _ _ _ _ u Hm H1). rewrite orb_false_r.
+    rewrite (contrib_is_edge_sum _ _ _ _ _ _ u Hm H1). rewrite orb_false_r.
     unfold hits. destruct (mem u (mt m1)); [ring|reflexivity].
-  - destruct (two_or_more _ _ _ _ _ _ _ H) as (a & b & cs' & ->). cbn [input_of].
-    rewrite (zero_buffer_sum _ _ _ _ _ u HA H). rewrite (assigned_hits _ _ _ _ _ u HA H).
+  - destruct (two_or_more _ _ _ _ _ _ _ _ H) as (a & b & cs' & ->). cbn [input_of].
+    rewrite (zero_buffer_sum _ _ _ _ _ _ u HA H). rewrite (assigned_hits _ _ _ _ _ _ u HA H).
     destruct (existsb (hits u) (m1 :: m2 :: ml)) eqn:E; [ring|].
     rewrite msum_nohit by assumption. ring.
 Qed.
@@ -521,34 +521,34 @@ Qed.
 Definition default_survives_at (ml : list mrg) (rdef : Qc) (u : nat) : bool :=
   (length ml <? 2)%nat || Qc_eqb rdef 0 || existsb (hits u) ml.
 
-Theorem input_partial_before_D57 : forall tsize ssize sval ml cs rdef u, Forall aligned_m ml ->
-  all_some (map (fun m => contrib tsize (ssize m) m (sval m)) ml) = Some cs ->
+Theorem input_partial_before_D57 : forall f32 tsize ssize sval ml cs rdef u, Forall aligned_m ml ->
+  all_some (map (fun m => contrib f32 tsize (ssize m) m (sval m)) ml) = Some cs ->
   default_survives_at ml rdef u = true ->
   input_of_before_D57 cs rdef u = if existsb (hits u) ml then msum ml sval u else rdef.
 Proof.
-  intros tsize ssize sval ml cs rdef u HA H G.
+  intros f32 tsize ssize sval ml cs rdef u HA H G.
   destruct ml as [|m1 [|m2 ml]].
   - cbn in H. inversion H. reflexivity.
   - cbn [map] in H. apply all_some_cons in H as (a & r' & H1 & H2 & ->). cbn in H2. inversion H2; subst.
     inversion HA as [|? ? Hm _]; subst. cbn [input_of_before_D57 existsb msum hits].
-    rewrite (contrib_is_edge_sum _ _ _ _ _ u Hm H1). rewrite orb_false_r.
+    rewrite (contrib_is_edge_sum _ _ _ _ _ _ u Hm H1). rewrite orb_false_r.
     unfold hits. destruct (mem u (mt m1)); [ring|reflexivity].
-  - destruct (two_or_more _ _ _ _ _ _ _ H) as (a & b & cs' & ->). cbn [input_of_before_D57].
-    rewrite (zero_buffer_sum _ _ _ _ _ u HA H).
+  - destruct (two_or_more _ _ _ _ _ _ _ _ H) as (a & b & cs' & ->). cbn [input_of_before_D57].
+    rewrite (zero_buffer_sum _ _ _ _ _ _ u HA H).
     destruct (existsb (hits u) (m1 :: m2 :: ml)) eqn:E; [reflexivity|].
     rewrite msum_nohit by assumption.
     unfold default_survives_at in G. rewrite E, orb_false_r in G. cbn [length Nat.ltb Nat.leb orb] in G.
     apply Qc_eqb_eq in G. symmetry. exact G.
 Qed.
 
-Theorem unconnected_unit_gets_zero_before_D57 : forall tsize ssize sval ml cs rdef u, Forall aligned_m ml ->
-  all_some (map (fun m => contrib tsize (ssize m) m (sval m)) ml) = Some cs ->
+Theorem unconnected_unit_gets_zero_before_D57 : forall f32 tsize ssize sval ml cs rdef u, Forall aligned_m ml ->
+  all_some (map (fun m => contrib f32 tsize (ssize m) m (sval m)) ml) = Some cs ->
   (2 <= length ml)%nat -> existsb (hits u) ml = false -> input_of_before_D57 cs rdef u = 0.
 Proof.
-  intros tsize ssize sval ml cs rdef u HA H L E.
+  intros f32 tsize ssize sval ml cs rdef u HA H L E.
   destruct ml as [|m1 [|m2 ml]]; [cbn in L; lia|cbn in L; lia|].
-  destruct (two_or_more _ _ _ _ _ _ _ H) as (a & b & cs' & ->). cbn [input_of_before_D57].
-  rewrite (zero_buffer_sum _ _ _ _ _ u HA H). apply msum_nohit; assumption.
+  destruct (two_or_more _ _ _ _ _ _ _ _ H) as (a & b & cs' & ->). cbn [input_of_before_D57].
+  rewrite (zero_buffer_sum _ _ _ _ _ _ u HA H). apply msum_nohit; assumption.
 Qed.
 
 (* ------------------------------------------------------------------------------------------ 6. _finalize_var_def *)
@@ -645,8 +645,10 @@ Proof. witness. Qed.
 Definition w_d21 : circuit :=
   Circ [Cls [Mono (q (-1)) 0 0 0; Mono (q (-1)) 1 0 0; Mono (q 1) 1 0 0] None 0] [Node 0 (q 1); Node 0 (q 2)] [].
 Lemma err_constant_rhs :
-  wf w_d21 = true /\ no_constant_rhs w_d21 = false /\ impl true w_d21 [q 1; q 2] = None /\
-  impl false w_d21 [q 1; q 2] = Some (spec w_d21 [q 1; q 2]).
+  wf w_d21 = true /\ no_constant_rhs w_d21 = false /\ impl_loud true w_d21 [q 1; q 2] = None /\
+  impl_loud false w_d21 [q 1; q 2] = Some (spec w_d21 [q 1; q 2]) /\
+  (* with the proposed repair (fixed_D21) the vectorized compilation agrees with the edge list *)
+  impl_gen input_of true false true true w_d21 [q 1; q 2] = Some (spec w_d21 [q 1; q 2]).
 Proof. witness. Qed.
 
 (* D32 (corpus/C04/D32_scalar_fanout.json): one node of a single-unit class to 10 nodes of one class *)
@@ -655,18 +657,19 @@ Definition w_d32 : circuit :=
        (map (fun i => Edge 0 (S i) (Some (q (Z.of_nat (S i)))) false) (seq 0 10)).
 Definition st_d32 : list Qc := map (fun i => q (Z.of_nat i)) (seq 0 11).
 Lemma err_scalar_fanout :
-  wf w_d32 = true /\ no_scalar_fanout w_d32 = false /\ impl true w_d32 st_d32 = None /\
-  impl false w_d32 st_d32 = Some (spec w_d32 st_d32).
+  wf w_d32 = true /\ no_scalar_fanout w_d32 = false /\ impl_loud true w_d32 st_d32 = None /\
+  impl_loud false w_d32 st_d32 = Some (spec w_d32 st_d32) /\
+  impl_gen input_of true true false true w_d32 st_d32 = Some (spec w_d32 st_d32).
 Proof. witness. Qed.
 
 (* the full-strength statement and its refutation *)
 Definition full_statement : Prop := forall c st, wf c = true -> length st = length (cnodes c) ->
   impl true c st = Some (spec c st) /\ impl false c st = Some (spec c st).
 
-Lemma full_statement_refuted : ~ full_statement.
+Lemma full_statement_refuted : fixed_D21 = false -> ~ full_statement.
 Proof.
-  intros F. destruct (F w_d21 [q 1; q 2]) as [H _]; [vm_compute; reflexivity|reflexivity|].
-  destruct err_constant_rhs as (_ & _ & N & _). rewrite N in H. discriminate.
+  intros Hf F. destruct (F w_d21 [q 1; q 2]) as [H _]; [vm_compute; reflexivity|reflexivity|].
+  unfold impl in H. rewrite Hf in H. vm_compute in H. discriminate.
 Qed.
 
 (* the end-to-end statement under the guards.  Proved below (section 11) up to the two loud classes: `impl_sound`
@@ -1043,12 +1046,12 @@ Section Compose.
     destruct (fst (ix (etgt e)) =? j); [|reflexivity]. cbn [andb]. reflexivity.
   Qed.
 
-  Lemma node_input : forall tsize cs,
-    all_some (map (fun m => contrib tsize (ssize_of m) m (sval_of m)) ml) = Some cs ->
+  Lemma node_input : forall f32 tsize cs,
+    all_some (map (fun m => contrib f32 tsize (ssize_of m) m (sval_of m)) ml) = Some cs ->
     input_of cs (crdef (node_cls c n)) i = spec_input c st n.
   Proof.
-    intros tsize cs H. pose proof ml_aligned as MA.
-    rewrite (input_is_edge_sum tsize ssize_of sval_of ml cs _ i MA H).
+    intros f32 tsize cs H. pose proof ml_aligned as MA.
+    rewrite (input_is_edge_sum f32 tsize ssize_of sval_of ml cs _ i MA H).
     rewrite spec_input_alt. fold es. rewrite hits_into, msum_spec. reflexivity.
   Qed.
 End Compose.
@@ -1056,11 +1059,12 @@ End Compose.
 (* Whenever the compilation modelled by Impl does not raise, it computes the vector field of the edge list — for every
    well-formed circuit, vectorized or not, any number of classes, units and edges, parallel edges, self-connections,
    weightless edges, several source variables per class pair (D59), any order of the nodes and edges. *)
-Theorem impl_sound : forall vec c st r, wf c = true -> impl vec c st = Some r -> r = spec c st.
+Theorem impl_gen_sound : forall f32 f21 vec c st r, wf c = true ->
+  impl_gen input_of true f32 f21 vec c st = Some r -> r = spec c st.
 Proof.
-  intros vec c st r WF H. unfold impl, impl_gen, compile in H.
+  intros f32 f21 vec c st r WF H. unfold impl_gen, compile in H.
   destruct (cache_all [] (keys vec c) 0) as [vn rs] eqn:CA. cbn [cvn cidx cgroups] in H.
-  destruct (existsb (vn_err c) vn); [discriminate|].
+  destruct (negb f21 && existsb (vn_err c) vn); [discriminate|].
   destruct (all_some _) as [rv|] eqn:AS in H; [|discriminate]. inversion H; subst r. clear H.
   unfold spec. apply map_ext_in. intros n Hn. apply in_seq in Hn. destruct Hn as [_ Hn]. cbn in Hn.
   destruct (F_mem vec c vn rs CA n Hn) as [Hi Hm].
@@ -1073,8 +1077,29 @@ Proof.
   destruct (all_some _) as [cs|] eqn:AC in V; [|discriminate]. inversion V as [V']. clear V.
   pose proof IX as IX2. unfold idx_of in IX2. injection IX2 as Ej Ei. rewrite Ej, Ei. rewrite <- V'.
   rewrite nth_map_seq by exact Hi. rewrite Hm.
-  pose proof (node_input vec c st vn rs CA WF n Hn) as NI. rewrite IX in NI. cbn [fst snd] in NI.
+  pose proof (node_input vec c st vn rs CA WF n Hn f32) as NI. rewrite IX in NI. cbn [fst snd] in NI.
   eapply NI. exact AC.
+Qed.
+
+Theorem impl_sound : forall vec c st r, wf c = true -> impl vec c st = Some r -> r = spec c st.
+Proof. intros vec c st r. apply impl_gen_sound. Qed.
+
+(* with both loud classes repaired the modelled compilation never raises *)
+Lemma all_some_total : forall {A B} (f : A -> option B) l, (forall x, In x l -> f x <> None) -> all_some (map f l) <> None.
+Proof.
+  induction l as [|a l IH]; intros H; cbn [map all_some]; [discriminate|].
+  destruct (f a) eqn:E; [|exfalso; apply (H a); [left; reflexivity|exact E]].
+  assert (IH' : all_some (map f l) <> None) by (apply IH; intros x Hx; apply H; right; exact Hx).
+  destruct (all_some (map f l)); [discriminate|exact IH'].
+Qed.
+
+Theorem repaired_never_raises : forall inp bv vec c st, impl_gen inp bv true true vec c st <> None.
+Proof.
+  intros inp bv vec c st. unfold impl_gen. cbn [negb andb].
+  destruct (all_some _) eqn:E; [discriminate|]. exfalso. revert E. apply all_some_total.
+  intros tj _. unfold vn_inputs_gen.
+  destruct (all_some _) eqn:E2; [discriminate|]. exfalso. revert E2. apply all_some_total.
+  intros m _. unfold contrib. cbn [negb andb]. destruct (dot_edge _ _ _); discriminate.
 Qed.
 
 (* vectorize=True and vectorize=False give the same vector field whenever neither raises *)
@@ -1091,20 +1116,34 @@ Proof.
   rewrite (impl_sound _ _ _ _ W E). reflexivity.
 Qed.
 
-(* THE GAP that remains for the end-to-end statement: the two loud classes are excluded by their guards.
-   (D21: a vector node has > 1 members iff its class has > 1 nodes; D32: ssize = 1, no repeated target index and >= 10
-   merged edges iff the frontend condition of no_scalar_fanout fails — needs a pigeonhole argument on the target indices
-   and the converse of same_vector_same_class.)  Not mechanised; every generated circuit inside the guards is checked
-   against it by the correspondence run (Impl = Some .. there). *)
-Definition no_err_statement : Prop := forall vec c st, wf c = true -> no_constant_rhs c = true ->
-  no_scalar_fanout c = true -> impl vec c st <> None.
+(* THE GAP that remains while the loud classes are unrepaired: that the boolean guards characterise them (D21: a vector
+   node has > 1 members iff its class has > 1 nodes; D32: pigeonhole on the target indices).  Not mechanised; every
+   generated circuit inside the guards is checked against it by the correspondence run.  Once both repairs have landed
+   (fixed_D21 = fixed_D32 = true) the gap disappears: `full_when_repaired` — the full statement holds unconditionally. *)
+Definition no_err_statement : Prop := forall vec c st, wf c = true -> guard c = true -> impl vec c st <> None.
 
 Theorem guarded_from_no_err : no_err_statement -> guarded_statement.
 Proof.
-  intros NE c st W G _. unfold guard in G. apply andb_true_iff in G as [G1 G3].
-  split.
+  intros NE c st W G _. split.
   - destruct (impl true c st) as [r|] eqn:E; [rewrite (impl_sound _ _ _ _ W E); reflexivity|].
-    exfalso. exact (NE true c st W G1 G3 E).
+    exfalso. exact (NE true c st W G E).
   - destruct (impl false c st) as [r|] eqn:E; [rewrite (impl_sound _ _ _ _ W E); reflexivity|].
-    exfalso. exact (NE false c st W G1 G3 E).
+    exfalso. exact (NE false c st W G E).
+Qed.
+
+Theorem full_when_repaired : fixed_D21 = true -> fixed_D32 = true -> full_statement.
+Proof.
+  intros H21 H32 c st W _. unfold impl. rewrite H21, H32. split.
+  - destruct (impl_gen input_of true true true true c st) as [r|] eqn:E;
+      [rewrite (impl_gen_sound _ _ _ _ _ _ W E); reflexivity|exfalso; exact (repaired_never_raises _ _ _ _ _ E)].
+  - destruct (impl_gen input_of true true true false c st) as [r|] eqn:E;
+      [rewrite (impl_gen_sound _ _ _ _ _ _ W E); reflexivity|exfalso; exact (repaired_never_raises _ _ _ _ _ E)].
+Qed.
+
+(* the same for the model with both switches on, whatever their current value *)
+Theorem full_of_repaired_model : forall vec c st, wf c = true ->
+  impl_gen input_of true true true vec c st = Some (spec c st).
+Proof.
+  intros vec c st W. destruct (impl_gen input_of true true true vec c st) as [r|] eqn:E;
+    [rewrite (impl_gen_sound _ _ _ _ _ _ W E); reflexivity|exfalso; exact (repaired_never_raises _ _ _ _ _ E)].
 Qed.
